@@ -2,7 +2,7 @@
    PARTIAL: the full statements
      strict_lazy_agree : OrderInsensitive f -> run_s .. = Ok g1 -> no_node_rendered .. -> exists g2, run_l .. = Ok g2 /\ g1 ≅ g2
      strict_fail_lazy_fail : run_s .. = Err e -> OrderIndependentCause e -> exists e', run_l .. = Err e'
-   are not proved (and strict_lazy_agree is FALSE as stated for cyclic scoped-variable definitions: K7 below).
+   are not proved in full (and strict_lazy_agree is FALSE as stated for cyclic scoped-variable definitions: K7 below).
    Proved here:
    * strict_lazy_same_graph_partial — version 1, WHOLE-RUN theorem relating Model/Strict.v and Model/Lazy.v
      (Proofs/SLGraph.v, SLForce.v, SLExpr.v, SLStmt.v, StrictLazy.v).  Fragment (`file_ok`, built from `fexpr`/`fstmt` of
@@ -51,15 +51,33 @@
      NOT proved: mutable scoped variables; inherited names outside (d); programs whose eager positions or definition
      scopes depend on scoped variables (the checker accepts some of them, e.g. a definition scope `@x.owner`, and
      lazy execution then depends on the order of forcing); `(node)` calls, for which only isomorphism can hold; an
-     arbitrary interleaving of the matches of different stanzas as tree-sitter reports them for the merged query;
-     the failure direction strict_fail_lazy_fail.
+     arbitrary interleaving of the matches of different stanzas as tree-sitter reports them for the merged query.
+   * strict_fail_lazy_fail_partial — the FAILURE direction on fragment v1 (Proofs/SLFailGraph.v, SLFailStore.v, SLFailEval.v,
+     SLFailExpr.v, SLFailStmt.v): if strict execution returns Err e and the root cause of e is neither UndefinedEdge
+     (order dependent: strict_fail_lazy_ok_undefined_edge) nor Cancelled, then lazy execution of the same file on the same
+     matches returns Ok for NO lazy fuel.  Extra hypotheses: a failing call fails on every graph (`pure_err_fn`), every
+     function only extends the graph (`call_graph_ext`); both hold of the standard library.
+     strict_fail_lazy_err_partial: with the hypotheses of lazy_exec_no_panic (Props/C05.v) the lazy run IS Err unless the
+     model runs out of fuel.  Proof: up to the failing strict step the success-direction invariant relates the runs; a
+     failure in an eager position fails the lazy run at the same statement; a failure in a deferred position leaves a
+     DOOMED lazy state — a recorded statement or a thunk whose evaluation cannot succeed on any store that keeps the
+     earlier thunks, or an attribute statement that conflicts with the strict graph; every later lazy computation
+     preserves doom (it only appends statements and thunks, extends the graph, and cannot force the doomed thunk), and
+     the evaluation phase of a doomed state cannot return Ok (it replays the strict run's insertions on a graph that
+     extends the strict one, so the conflicting value is there whatever edges were inserted first, and
+     `evaluate_all` forces every thunk).
+     NOT proved: the failure direction on fragment v2 (scoped variables: a read before the definition and a second
+     definition of the same (node, name) are order dependent / deferred to the cells); "lazy IS Err from some fuel on"
+     — FALSE in the model: lazy execution runs the statements after the failure point, which may diverge
+     (strict_fail_lazy_diverges_k2).
    * building blocks named in DESIGN.md §7 C02 — the two interpreters' copies of capture binding, regex-capture
      lookup and scan-arm selection compute the same thing, and the lazy store's forcing discipline (a thunk is
      forced at most once, every reader sees one value).
    The whole-run statements outside the fragments are explored by the direct strict-vs-lazy stream and both
    correspondence streams. *)
 From TSG Require Import Model.Strict Model.Lazy Model.Run Model.Stdlib Proofs.Captures Proofs.MonadFacts Proofs.K7
-  Proofs.SLExpr Proofs.StrictLazy Proofs.SLExample Proofs.SL2Expr Proofs.SL2Stmt Proofs.SL2Whole Proofs.SL2Adequate Proofs.SL2Example.
+  Proofs.SLExpr Proofs.StrictLazy Proofs.SLExample Proofs.SL2Expr Proofs.SL2Stmt Proofs.SL2Whole Proofs.SL2Adequate Proofs.SL2Example
+  Proofs.Extends Proofs.NoPanicStrict Proofs.NoPanicLazy Proofs.SLFailGraph Proofs.SLFailExpr Proofs.SLFailStmt Proofs.SLFailExample.
 
 (* `$k` has the same value in both modes; out of range is UndefinedRegexCapture in both *)
 Theorem lazy_regex_capture_partial : forall t fl glob call fuel fuel' (le : lenv) (ll : llenv) i s p sl pl,
@@ -208,6 +226,113 @@ Example strict_lazy_same_graph_nonvacuous :
   lgraph_of (run_lazy k7_tree ex_file config0 [[]] None ex_regexes rx_captures (the_call k7_tree []) default_fuel (lmatches_of ex_matches) []) = Ok ex_graph /\
   length ex_graph = 5%nat.
 Proof. split; [exact ex_pure|]. split; [exact ex_file_ok|]. split; [exact ex_strict_ok|]. split; [exact ex_lazy_ok|reflexivity]. Qed.
+
+(* FAILURE DIRECTION, fragment v1 (no scoped variables): if strict execution FAILS with an error whose root cause does
+   not depend on the evaluation order, lazy execution of the same file on the same matches never returns Ok, for any
+   lazy model fuel: it fails too (or, in the model, runs out of fuel / reaches a modelled panic site — the latter is
+   excluded by the no-panic theorems of Props/C05.v under their hypotheses).
+   Hypotheses beyond those of strict_lazy_same_graph_partial:
+   * `pure_err_fn` (Proofs/SLFailExpr.v): a called function that fails fails in the same way on every graph
+     (stdlib_pure_err_partial: every stdlib function except `node`);
+   * `call_graph_ext` (Proofs/SLFailGraph.v): EVERY function only extends the graph it is given (`graph_ext` of
+     Props/C09.v; stdlib_graph_ext_partial: the whole standard library, `node` included).  Needed because lazy execution
+     goes on after the point where strict execution stopped, evaluating values the fragment says nothing about;
+   * `order_independent_error e` (Proofs/SLFailGraph.v): the root cause of e is neither UndefinedEdge nor Cancelled.
+     UndefinedEdge IS order dependent: `attr (a -> b) k = 1  edge a -> b` fails strictly and succeeds lazily, because
+     lazy evaluation inserts all edges before all attributes (strict_fail_lazy_ok_undefined_edge below).  Cancelled
+     cannot come from the interpreter when there is no cancellation budget (only from a supplied function).
+   Covered: wrong value types in eager positions (conditions, scan subjects, loop lists) and in deferred positions
+   (edge endpoints, attribute targets), conflicting attributes on nodes and edges, duplicate / immutable /
+   undefined local variables, failing or unknown functions (also inside a value that nothing reads: all thunks are
+   forced at the end of the run), regex captures out of range, empty regex matches in `scan`. *)
+Theorem strict_fail_lazy_fail_partial :
+  forall {rx : Type} t fl supplied (regexes : list rx) find call (okfn : ident -> Prop) fuel ms g0 e,
+  (forall f, okfn f -> pure_fn call f) ->
+  (forall f, okfn f -> pure_err_fn call f) ->
+  call_graph_ext call ->
+  file_ok okfn fl (f_stanzas fl) ms ->
+  run_strict t fl config0 supplied None regexes find call fuel ms g0 = Err e ->
+  order_independent_error e ->
+  forall lfuel,
+    match run_lazy t fl config0 supplied None regexes find call lfuel (lmatches_of ms) g0 with
+    | Ok _ => False
+    | Err _ | Panic _ | OutOfFuel => True
+    end.
+Proof. exact @strict_fail_lazy_fail_lemma. Qed.
+
+(* ... with, in addition, the hypotheses of the no-panic theorem of the lazy interpreter (lazy_exec_no_panic, Props/C05.v)
+   lazy execution FAILS (returns Err), unless the model runs out of fuel.  (A sharper "from some fuel on the lazy run
+   IS Err" is FALSE of the model: after the point where strict execution stopped, lazy execution keeps executing the
+   statements the strict run never reached, and these need not terminate — strict_fail_lazy_diverges_k2 below: a
+   recursive attribute shorthand, known finding K2, makes the model run out of EVERY fuel; the implementation
+   overflows its stack.) *)
+Theorem strict_fail_lazy_err_partial :
+  forall {rx : Type} (sok : N -> Prop) t fl supplied (regexes : list rx) find call (okfn : ident -> Prop) fuel ms g0 e,
+  (forall f, okfn f -> pure_fn call f) ->
+  (forall f, okfn f -> pure_err_fn call f) ->
+  call_graph_ext call ->
+  file_ok okfn fl (f_stanzas fl) ms ->
+  WellFormedFile regexes fl -> GoodMatchesLazy sok fl (lmatches_of ms) -> GoodGlobals sok g0 supplied -> GoodCall sok call ->
+  run_strict t fl config0 supplied None regexes find call fuel ms g0 = Err e ->
+  order_independent_error e ->
+  forall lfuel,
+    match run_lazy t fl config0 supplied None regexes find call lfuel (lmatches_of ms) g0 with
+    | Err _ | OutOfFuel => True
+    | Ok _ | Panic _ => False
+    end.
+Proof. exact @strict_fail_lazy_err_lemma. Qed.
+
+(* the two extra hypotheses on functions hold of the standard library *)
+Theorem stdlib_pure_err_partial : forall rxo t f, fn_of_name f <> Some FNode -> pure_err_fn (stdlib_call rxo t) f.
+Proof. exact stdlib_pure_err_fn. Qed.
+Theorem stdlib_graph_ext_partial : forall rxo t, call_graph_ext (stdlib_call rxo t).
+Proof. exact stdlib_call_graph_ext. Qed.
+
+(* the hypotheses hold of concrete programs (Proofs/SLFailExample.v) on which strict execution returns Err and lazy
+   execution returns Err with the same root cause:
+   (i) a type error in a deferred position, `node n  edge n -> "s"`; (ii) a conflicting attribute,
+   `node n  attr (n) k = 1  attr (n) k = 2`; (iii) an eager failure, `if (not 3) { node n }`;
+   (iv) a failing value that nothing reads, `let x = (plus "a" 1)  node n` *)
+Example strict_fail_lazy_fail_nonvacuous :
+  (forall f, fe_okfn f -> pure_fn fe_call f) /\ (forall f, fe_okfn f -> pure_err_fn fe_call f) /\ call_graph_ext fe_call /\
+  (file_ok fe_okfn fe1_file (f_stanzas fe1_file) ex_matches /\
+   err_cause (fe_strict fe1_file) = Some EExpectedGraphNode /\ err_cause (fe_lazy fe1_file) = Some EExpectedGraphNode) /\
+  (file_ok fe_okfn fe2_file (f_stanzas fe2_file) ex_matches /\
+   err_cause (fe_strict fe2_file) = Some EDuplicateAttribute /\ err_cause (fe_lazy fe2_file) = Some EDuplicateAttribute) /\
+  (file_ok fe_okfn fe3_file (f_stanzas fe3_file) ex_matches /\
+   err_cause (fe_strict fe3_file) = Some EExpectedBoolean /\ err_cause (fe_lazy fe3_file) = Some EExpectedBoolean) /\
+  (file_ok fe_okfn fe4_file (f_stanzas fe4_file) ex_matches /\
+   err_cause (fe_strict fe4_file) = Some EExpectedInteger /\ err_cause (fe_lazy fe4_file) = Some EExpectedInteger).
+Proof.
+  split; [exact fe_pure|]. split; [exact fe_pure_err|]. split; [exact fe_graph_ext|].
+  split; [split; [exact fe1_file_ok|split; [exact fe1_strict|exact fe1_lazy]]|].
+  split; [split; [exact fe2_file_ok|split; [exact fe2_strict|exact fe2_lazy]]|].
+  split; [split; [exact fe3_file_ok|split; [exact fe3_strict|exact fe3_lazy]]|].
+  split; [exact fe4_file_ok|split; [exact fe4_strict|exact fe4_lazy]].
+Qed.
+
+(* the excluded error kind is order dependent: a program of the fragment on which strict execution fails with
+   UndefinedEdge and lazy execution succeeds (`node a  node b  attr (a -> b) k = 1  edge a -> b`) *)
+Example strict_fail_lazy_ok_undefined_edge :
+  file_ok fe_okfn fe5_file (f_stanzas fe5_file) ex_matches /\
+  err_cause (fe_strict fe5_file) = Some EUndefinedEdge /\
+  exists g, lgraph_of (fe_lazy fe5_file) = Ok g /\ length g = 2%nat.
+Proof. split; [exact fe5_file_ok|]. split; [exact fe5_strict|]. eexists. split; [exact fe5_lazy|reflexivity]. Qed.
+
+(* "lazy execution returns Err" cannot be concluded without a termination hypothesis: a program of the fragment
+   (`attribute a = x => a = x` and `let y = (plus "a" 1)  node n  attr (n) a = 1`) on which strict execution fails at the
+   first statement while lazy execution goes on to the recursive shorthand (K2) and runs out of every fuel *)
+Example strict_fail_lazy_diverges_k2 :
+  file_ok fe_okfn fe6_file (f_stanzas fe6_file) ex_matches /\
+  err_cause (fe_strict fe6_file) = Some EExpectedInteger /\
+  forall lfuel, run_lazy k7_tree fe6_file config0 [[]] None ([] : list regex) rx_captures fe_call lfuel (lmatches_of ex_matches) [] = OutOfFuel.
+Proof. split; [exact fe6_file_ok|]. split; [exact fe6_strict|exact fe6_lazy_diverges]. Qed.
+
+(* the hypotheses of strict_fail_lazy_err_partial are satisfiable together (program (i)) *)
+Example strict_fail_lazy_err_nonvacuous :
+  WellFormedFile ([] : list regex) fe1_file /\ GoodMatchesLazy (syn_ok k7_tree) fe1_file (lmatches_of ex_matches) /\
+  GoodGlobals (syn_ok k7_tree) [] [[]] /\ GoodCall (syn_ok k7_tree) fe_call.
+Proof. exact fe1_nopanic_hyps. Qed.
 
 (* KNOWN FINDING K7: the full statement `strict_lazy_agree` is FALSE of the faithful model (and of the
    implementation: the witness is replayed on it by `tsgv known K7`).  A file with no inherited and no
